@@ -67,3 +67,9 @@ func init() {
 		Assume: []string{"relational: the From-Markdown family is the reference for the From-Root family (each is tied to the model by C01-C09)", "error messages are not compared, only nil-ness and sentinel identity"},
 		Rule: "cases: every single-root labeled tree up to the node bound (intended trees incl. repeated sibling names) built by 4 Add orders (pre-order, breadth-first, 2 seeded topological orders) with repeated Adds of existing names, plus seeded random trees with hostile names (a fifth with LF/CR/empty names, From-Root only); one evaluation = one From-Root operation (text x 3 branch tuples, JSON, YAML, TOML, walk, iterator, mkdir, verify strict/non-strict, dry-run) compared with its From-Markdown counterpart or alias, or one nil / non-root call (12 entry points) judged on sentinel error, zero bytes and unchanged jail; distinct key = hash(tree, operation, Add order | invalid kind, entry); non-trivial = >= 3 nodes, or any filesystem / invalid-root case"}
 }
+
+func init() {
+	props["C17"] = propCfg{Level: "exploration", Wasm: true,
+		Assume: []string{"-tags tinywasm built natively for linux/amd64 exercises the same Go code as the TinyGo/wasm artefact (compiler and syscall/js glue are out of scope)", "error texts are not compared; bytes are compared only when both builds accept"},
+		Rule: "cases: degenerate list, every labeled forest up to the node bound in 2-6 spellings, every single-line malformation injection M1-M6 on forests up to 4/5 nodes, seeded random well-formed and grammar-mutated documents, raw byte strings; each x {text default, 4 custom branch tuples incl. empty strings, JSON, dry-run with 4 extension lists}; one evaluation = the same case sent to the default-build driver and the tinywasm-build driver, outcomes compared; distinct key = hash(document bytes, mode); non-trivial = non-empty document"}
+}
